@@ -1,15 +1,7 @@
 From Coq Require Import Lia.
-From Clikit Require Import Base.Prelude Model.Gate.
+From Clikit Require Import Base.Prelude Model.Gate Proofs.Bits.
 
-Lemma land_pow2_testbit f k : (0 <= k)%Z -> (Z.land f (2 ^ k) =? 0)%Z = negb (Z.testbit f k).
-Proof.
-  intros Hk. destruct (Z.testbit f k) eqn:E; cbn.
-  - apply Z.eqb_neq. intros H. assert (Z.testbit (Z.land f (2 ^ k)) k = false) by (rewrite H; apply Z.bits_0).
-    rewrite Z.land_spec, E, Z.pow2_bits_true in H0 by assumption. discriminate.
-  - apply Z.eqb_eq. apply Z.bits_inj'. intros n Hn. rewrite Z.land_spec, Z.bits_0.
-    destruct (Z.eq_dec n k) as [->|Hne]; [now rewrite E|].
-    rewrite Z.pow2_bits_false by lia. apply andb_false_r.
-Qed.
+
 
 Lemma may_write_level q v f : (0 <= v)%Z ->
   may_write q v f = negb q && (lowest_level f <=? v)%Z.
